@@ -141,13 +141,13 @@ PROPS = {
         not_decided=['that the solver returns the unique solution (pi_solver.rs is outside contract reach): soundness of the final bytes rests on the assumed solver contract',
                      'that the intermediate symbols generated on the encoder side solve the pre-code system (solver)']),
     'C02': dict(
-        level='proof', units=[('V', 'V-DEC', 'v_dec')],
+        level='proof', units=[('V', 'V-DEC', 'v_dec'), ('V', 'V-AMAT', 'v_amat')],
         explanation='the decoder-level half of the property, for all states: the case analysis of SourceBlockDecoder::decode (too few / all source / solve), the ISI list and D vector handed to the solver, '
                     'the GF(2)-only attempt exactly when S + |isis| >= L, its Some returned, and on None ALWAYS the standard solve (never gives up through the fast path); the answer is a function of the received state alone '
-                    '(the `decoded` flag is write-only), so it is re-evaluated on the full accumulated set at every call',
-        assumptions=[SOLVER_ASSUMED],
+                    '(the `decoded` flag is write-only), so it is re-evaluated on the full accumulated set at every call; the matrix handed to the solver: generate_constraint_matrix and generate_constraint_matrix_no_hdpc build, for all K and all ISI lists, exactly the binary part of the RFC 5.3.3.3 matrix (G_LDPC,1 | I_S | G_LDPC,2 rows, zero HDPC gap, one G_ENC row per received ISI with ones at the 5.3.5.3 index walk) (V-AMAT)',
+        assumptions=[SOLVER_ASSUMED, 'V-AMAT: BinaryMatrix reduced to new/set with the cell-level contract V-DENSE proves for the dense matrix (assumed for the sparse one); generate_hdpc_rows (the GF(256) rows) external'],
         not_decided=['rank exactness of the solver (Some iff the constraint matrix has full rank over GF(256)): NOT decided by this check; it is the assumed solver contract',
-                     'that generate_constraint_matrix builds the RFC matrix for the given ISI list']),
+                     'generate_hdpc_rows (HDPC rows, GF(256) arithmetic with Rand) is not under contract']),
     'C08': dict(
         level='proof', units=[('V', 'V-DEC', 'v_dec')],
         explanation='duplicate suppression (a packet whose ESI was seen changes nothing), packets with different ESIs commute up to the arrival order of repair packets (multiset equal), idempotence; '
@@ -193,12 +193,12 @@ PROPS = {
         assumptions=['Intel SDM models of _mm{,256,512}_shuffle_epi8, _bextr2_u32, _mm512_maskz_mov_epi8; nondeterministic CPUID/XGETBV', 'NEON kernels are cfg\'d out on this host: not covered'],
         not_decided=['lengths >= 3W, scalars x lengths product beyond the stated set', 'NEON']),
     'C04': dict(
-        level='proof', units=[('V', 'V-RNG', 'v_rng'), ('V', 'V-TAB', 'v_tab'), ('V', 'V-ENC', 'v_enc'), ('V', 'V-ENCINTO', 'v_encinto'), ('V', 'V-ENCIDX', 'v_encidx'), ('V', 'V-REBUILD', 'v_rebuild'), ('V', 'V-SLAB', 'v_slab'), ('K', 'K-TAB', None), ('K', 'K-RNG', None), ('K', 'K-ENCIDX', None), ('K', 'K-GF', None)],
+        level='proof', units=[('V', 'V-RNG', 'v_rng'), ('V', 'V-TAB', 'v_tab'), ('V', 'V-ENC', 'v_enc'), ('V', 'V-ENCINTO', 'v_encinto'), ('V', 'V-ENCIDX', 'v_encidx'), ('V', 'V-REBUILD', 'v_rebuild'), ('V', 'V-AMAT', 'v_amat'), ('V', 'V-SLAB', 'v_slab'), ('K', 'K-TAB', None), ('K', 'K-RNG', None), ('K', 'K-ENCIDX', None), ('K', 'K-GF', None)],
         explanation='decided part: Rand, Deg, Tuple equal the RFC definitions for every reachable argument (V-RNG/K-RNG); the Enc index sequence of the decoder-side twin enc_indices (the sequence of its callback arguments, rule F1) is the RFC 5.3.5.3 walk for ALL tuples and all W, P, P1 (V-ENCIDX, Verus, unbounded) and equals the executable RFC transcription for every table row, with termination (K-ENCIDX, Kani); the decoder\'s rebuild_source_symbol_into (enc_indices applied to its copy/add_assign closure, rule I1) writes the same xor over the same walk as the encoder\'s enc_into (V-REBUILD); the encoder-side enc_into xors exactly the intermediate symbols at the RFC 5.3.5.3 walk (b + j*a mod W for j < d, then the first d1 positions of the b1 + k*a1 mod P1 walk with value < P), for ALL K\', tuples and symbol sizes (V-ENCINTO, Verus, unbounded); '
                     'repair ESI X maps to ISI X + K\' - K and payload Enc over the encoder\'s intermediate symbols, ids as prescribed, source packet i carries source symbol i (V-ENC); D = [0^(S+H), source, 0-padding] (V-SLAB create_d); '
-                    'tables equal the pinned transcription and satisfy the RFC structural facts (K-TAB/V-TAB); GF(256) is the RFC field (K-GF). The oracle is an RFC transcription, so a consistent deviation shared by encoder and decoder is caught.',
+                    'tables equal the pinned transcription and satisfy the RFC structural facts (K-TAB/V-TAB); GF(256) is the RFC field (K-GF); generate_constraint_matrix{,_no_hdpc} build the binary rows of the RFC 5.3.3.3 matrix A for all K and ISI lists (V-AMAT). The oracle is an RFC transcription, so a consistent deviation shared by encoder and decoder is caught.',
         assumptions=['pinned tables == RFC 6330', 'V-ENCINTO: termination of the P1 walk not proved (partial correctness); get/add_assign/table look-up contracts assumed there and proved in V-SLAB/K-KERN/V-TAB', SOLVER_ASSUMED],
-        not_decided=['that the intermediate symbols are THE solution of the pre-code system (solver) and that generate_constraint_matrix/generate_hdpc_rows build the RFC matrix',
+        not_decided=['that the intermediate symbols are THE solution of the pre-code system (solver); generate_hdpc_rows (the H GF(256) rows of A) is not under contract; V-AMAT states the binary rows in set semantics (cell is 1 iff some step of the RFC procedure adds it): equal to the RFC\'s xor formulation because the touched positions of a row/column are pairwise distinct (S prime > a, P >= 2, W prime, d <= W-2), which is argued, not machine-checked',
                      'K-ENCIDX quick tier: d <= 8 only (complete d <= 30 in thorough); V-ENCIDX covers every d in both tiers but proves partial correctness (termination of the P1 walk is K-ENCIDX\'s)']),
     'C16': dict(
         level='proof', units=[('V', 'V-DENSE', 'v_dense'), ('V', 'V-SPARSE', 'v_sparse')],
